@@ -285,6 +285,7 @@ def run(ctx):
         ctx.violated(r3, mg, "init_pars[index] = val", "fixed parameters do not start (and hence stay) at their fixed value in Minuit", node=mg.node)
 
     _minuit_minimize_history(ctx, r3, repo)
+    _optimizer_construction(ctx, r3, repo)
     _mle_history(ctx, r1, repo)
     _optimizers_interpreted(ctx, r3, repo)
 
@@ -568,6 +569,57 @@ def _optimizers_interpreted(ctx, rid, repo):
                 ctx.holds(rid, f"{OPT}opt_minuit.py::minuit_optimizer._get_minimizer [{lab}]", "start = [v0, i1]; limits = bounds; fixed = [True, False]")
         except errs as e:
             ctx.unrecognised(rid, mc_, f"minuit_optimizer._get_minimizer [{lab}]", f"not interpretable: {type(e).__name__}: {e}")
+
+
+def _optimizer_construction(ctx, rid, repo):
+    """The optimizer classes constructed through their real constructor chain (class -> OptimizerMixin) with every
+    documented option given, then one default fit: what the solver is configured with is what the constructor was told."""
+    from ..alg import NotHandled, RaisedInFragment
+    from ..objmodel import World
+    at, c = Poly.atom, Poly.const
+    errs = (Undecided, KeyError, TypeError, ValueError, IndexError, AttributeError)
+    mixin = repo.cls(OPT + "mixins.py", "OptimizerMixin")
+    for rel, cname, given, probe in (
+        ("opt_scipy.py", "scipy_optimizer", {"tolerance": at("TOL"), "maxiter": at("MAXITER"), "verbose": c(1), "solver_options": {"ftol": at("FTOL")}}, "scipy"),
+        ("opt_minuit.py", "minuit_optimizer", {"tolerance": at("TOL"), "maxiter": at("MAXITER"), "strategy": c(2), "errordef": at("ERRORDEF"), "steps": at("STEPS")}, "minuit"),
+    ):
+        cls = repo.cls(OPT + rel, cname)
+        site = f"{OPT}{rel}::{cname}({', '.join(given)}) then a default fit"
+        try:
+            rec = []
+
+            def migrad(recv, a, k, rec=rec):
+                if isinstance(recv, Obj) and recv.name == "MINUIT":
+                    rec.append({"tol": recv.attrs.get("tol"), "strategy": recv.attrs.get("strategy"), "maxiter": k.get("ncall", a[0] if a else None)})
+                    return None
+                raise NotHandled()
+
+            w = World({"__strict__": True, ".migrad": migrad, ".hesse": lambda r_, a, k: None, ".correlation": lambda r_, a, k: Obj("CORR"), "OptimizeResult": lambda a, k: Obj("RESULT", dict(k))},
+                      module_env={"exceptions": Obj("exceptions"), "scipy": Obj("scipy"), "iminuit": Obj("iminuit"), "log": Obj("log")})
+            w.add_class(mixin).add_class(cls)
+            inst = w.new(cls, [], dict(given))
+            if probe == "scipy":
+                solver = PyFunc(lambda a, k, rec=rec: (rec.append({"tol": k.get("tol"), "maxiter": (k.get("options") or {}).get("maxiter"), "ftol": (k.get("options") or {}).get("ftol"), "disp": (k.get("options") or {}).get("disp")}) or Obj("RESULT")), "minimizer")
+                w.call_method(inst, "_minimize", [solver, Obj("FUNC"), [at("x0"), at("x1")]], {"do_grad": False, "bounds": [(at("l0"), at("h0")), (at("l1"), at("h1"))], "fixed_vals": [], "options": {}})
+                want = {"tol": "TOL", "maxiter": "MAXITER", "ftol": "FTOL", "disp": True}
+            else:
+                minimizer = Obj("MINUIT", {"valid": True, "fmin": Obj("fmin"), "covariance": Obj("COV"), "errors": Obj("ERR"), "values": Obj("VALUES"), "fval": at("FVAL"), "nfcn": c(10), "ngrad": c(0)})
+                w.call_method(inst, "_minimize", [minimizer, Obj("FUNC"), [at("x0"), at("x1")]], {"do_grad": False, "bounds": Obj("BOUNDS"), "fixed_vals": [], "options": {}})
+                want = {"tol": "TOL", "strategy": "2", "maxiter": "MAXITER"}
+            got = {k_: (v_ if isinstance(v_, bool) else (str(to_poly(v_)) if v_ is not None else None)) for k_, v_ in rec[-1].items()}
+            bad = sorted(k_ for k_ in want if got.get(k_) != want[k_])
+            kept = {k_: inst.attrs.get(k_) for k_ in ("errordef", "steps") if k_ in given}
+            lost = sorted(k_ for k_, v_ in kept.items() if v_ is None or str(to_poly(v_)) != str(to_poly(given[k_])))
+            if bad or lost:
+                what = bad[0] if bad else lost[0]
+                opt_name = {"tol": "tolerance", "ftol": "solver_options", "disp": "verbose"}.get(what, what)
+                ctx.violated(rid, cls.methods["__init__"], f"{cname}: option `{opt_name}` given to the constructor", f"an optimizer constructed with `{opt_name}` = {given.get(opt_name)} runs its fits with {what} = {got.get(what, inst.attrs.get(what))}: the setting is overwritten or dropped on the way through the constructor chain (class, then OptimizerMixin), so the fit stops at another tolerance / iteration limit than the user configured", expected=str(want), found=str(got))
+            else:
+                ctx.holds(rid, site, f"solver configured with {want}")
+        except RaisedInFragment as e:
+            ctx.violated(rid, cls.methods["__init__"], f"{cname} construction", f"raises {e.exc_name} on documented options")
+        except errs as e:
+            ctx.unrecognised(rid, cls, f"{cname} construction", f"not interpretable: {type(e).__name__}: {e}")
 
 
 def _mle_history(ctx, rid, repo):
